@@ -209,10 +209,7 @@ theorem infallible_partial (E : Env) (F : Fn) (as : ASlots) (vs : Slots) (td : T
     obtain ⟨o, rest, rfl, ho, hr⟩ := typesOk_opt hr; cases typesOk_nil hr
     obtain ⟨b, hb⟩ := opt_bool (.bool true) ⟨_, rfl⟩ ho
     cases v <;> kill_bits hv <;> cases s <;> kill_bits hs
-    rename_i vb sb
-    simp only [model, bin1, Str.startsWith, Str.caseArg, hb]
-    have := startsWithBytes_ne_err E.cm b vb sb
-    cases hx : Str.startsWithBytes E.cm b vb sb <;> simp_all
+    simp [model, bin1, Str.startsWith, Str.caseArg, hb]
   case endsWith =>
     obtain ⟨v, rest, rfl, hv, hr⟩ := typesOk_req ht
     obtain ⟨s, rest, rfl, hs, hr⟩ := typesOk_req hr
